@@ -30,8 +30,8 @@ def incremental(pid, tier, replay):
 def ordering(pid, tier, replay):
     if replay:
         return engine.engine_replay(pid, replay)
-    fams = _fams([dict(fam="sched", K=8, CH=1), dict(fam="inc", K=3, CH=3)],
-                 [dict(fam="sched", K=81, CH=1), dict(fam="inc", K=30, CH=10)], tier)
+    fams = _fams([dict(fam="sched", K=8, CH=1), dict(fam="inc", K=3, CH=3), dict(fam="dyn", K=1, CH=3), dict(fam="pools", K=1, CH=1)],
+                 [dict(fam="sched", K=81, CH=1), dict(fam="inc", K=30, CH=10), dict(fam="dyn", K=1, CH=30), dict(fam="pools", K=8, CH=1), dict(fam="rand", K=100, CH=4)], tier)
     return engine.engine_check(pid, fams, tier, maxruns=64 if tier == "quick" else 2000)
 
 
@@ -433,4 +433,20 @@ def crashes(pid, tier, replay):
         return engine.engine_replay(pid, replay)
     fams = _fams([dict(fam="crash", K=2, CH=2), dict(fam="intr", K=3, CH=2)],
                  [dict(fam="crash", K=12, CH=6), dict(fam="intr", K=12, CH=6)], tier)
-    return engine.engine_check(pid, fams, tier, maxruns=12 if tier == "quick" else 100)
+    return engine.engine_check(pid, fams, tier, maxruns=12 if tier == "quick" else 100, level="fault_enumeration")
+
+
+@reg("C10")
+def discovered(pid, tier, replay):
+    if replay:
+        return engine.engine_replay(pid, replay)
+    fams = _fams([dict(fam="twin", K=6, CH=4)], [dict(fam="twin", K=60, CH=16)], tier)
+    return engine.engine_check(pid, fams, tier, maxruns=8 if tier == "quick" else 64, props=["C10"])
+
+
+@reg("C11")
+def dyndep(pid, tier, replay):
+    if replay:
+        return engine.engine_replay(pid, replay)
+    fams = _fams([dict(fam="dyn", K=1, CH=6)], [dict(fam="dyn", K=1, CH=40)], tier)
+    return engine.engine_check(pid, fams, tier, maxruns=24 if tier == "quick" else 200, props=["C11"])
